@@ -1,4 +1,4 @@
-import ConserveModel.Proofs.ProtocolInv5
+import ConserveModel.Proofs.ProtocolInv6
 /-
 C06 — A garbage collection and a backup running together never lose data.
 
@@ -7,12 +7,20 @@ gc / delete, advanced one storage-operation class at a time under an arbitrary s
 arbitrary archive (unboundedly many bands and blocks).  The harness (harness/src/c06.rs) validates
 the abstraction: it projects real interleaved runs onto the skeleton's events and compares.
 
-* `C06Statement` is the property at full strength.  It is FALSE of the code (defect D7: the
-  interlock is check-then-act on both sides): `c06_refuted`.
-* `c06_partial`: for ALL archives and ALL schedules the conclusion holds when the schedule has one
-  of four safe orders (`SafeOrder`).
-* `c06_old_versions_safe`, `c06_damage_confined`: with no condition on the schedule, the damage of
-  D7 is confined to the version the backup is writing.
+The skeleton is parametric in `Config.recheck`: `false` = the backup as it was when defect D7 was
+found, `true` = the repaired backup (src/backup.rs, "backup looks for the gc lock again after
+creating its band": a second lock check between `B.head` and `B.listBlocks`).
+
+* `C06Statement` (= `C06For true`) is the property at full strength for the repaired code:
+  PROVED, `c06_statement` / `c06_holds`, for all archives and all schedules.
+* `c06_refuted_before_repair`: the same statement for `recheck = false` (`C06For false`) is FALSE
+  (defect D7: the interlock was check-then-act on both sides).
+* `c06_partial`: for ALL archives and ALL schedules and BOTH values of `recheck` the conclusion
+  holds when the schedule has one of four safe orders (`SafeOrder`); only of interest for
+  `recheck = false` now.
+* `c06_old_versions_safe`, `c06_damage_confined`: both values of `recheck`, no condition on the
+  schedule: versions other than the one being written are never damaged (for `recheck = false`
+  this confines the damage of D7).
 -/
 namespace Conserve.C06
 open Conserve.Proto
@@ -24,17 +32,18 @@ structure InvAll (c : Config) (p : State) : Prop where
   i3 : Inv3 c p
   i4 : Inv4 c p
   i5 : Inv5 c p
+  i6 : Inv6 c p
 
 theorem InvAll.start (c : Config) : InvAll c c.start :=
-  ⟨Inv1.start c, Inv2.start c, Inv3.start c, Inv4.start c, Inv5.start c⟩
+  ⟨Inv1.start c, Inv2.start c, Inv3.start c, Inv4.start c, Inv5.start c, Inv6.start c⟩
 
 theorem InvAll.presB {c : Config} {p : State} (h : InvAll c p) : InvAll c (stepB p) :=
   ⟨h.i1.presB, h.i2.presB h.i1, h.i3.presB h.i1 h.i2, h.i4.presB h.i1 h.i2 h.i3,
-   h.i5.presB h.i1 h.i2 h.i3 h.i4⟩
+   h.i5.presB h.i1 h.i2 h.i3 h.i4, h.i6.presB h.i1 h.i2 h.i3 h.i4⟩
 
 theorem InvAll.presG {c : Config} {p : State} (h : InvAll c p) : InvAll c (stepG p) :=
   ⟨h.i1.presG, h.i2.presG h.i1, h.i3.presG h.i1 h.i2, h.i4.presG h.i1 h.i2 h.i3,
-   h.i5.presG h.i1 h.i2 h.i3 h.i4⟩
+   h.i5.presG h.i1 h.i2 h.i3 h.i4, h.i6.presG h.i1 h.i2 h.i3 h.i4⟩
 
 /-- The invariants hold after every schedule, of any length. -/
 theorem InvAll.run (c : Config) (sched : Schedule) : InvAll c (runProto sched c.start) :=
@@ -46,13 +55,19 @@ def GoodP (c : Config) : Prop :=
 
 instance (c : Config) : Decidable (GoodP c) := by unfold GoodP; infer_instance
 
-/-- **C06 at full strength**: for every archive without dangling complete versions and every
-interleaving of a backup with a gc / delete, once both have finished every version marked complete
-has all its blocks. -/
-def C06Statement : Prop :=
-  ∀ (c : Config) (sched : Schedule), GoodP c →
+/-- The property at full strength for one variant of the backup (`recheck = false`: before the
+repair of D7, `recheck = true`: repaired): for every archive without dangling complete versions
+and every interleaving of a backup with a gc / delete, once both have finished every version marked
+complete has all its blocks. -/
+def C06For (recheck : Bool) : Prop :=
+  ∀ (c : Config) (sched : Schedule), c.recheck = recheck → GoodP c →
     let s' := runProto sched c.start
     ∀ b, complete s' b → ∀ g ∈ refs s' b, g ∈ present s'
+
+/-- **C06 at full strength**, for the code as it is now (the repaired backup): for every archive
+without dangling complete versions and every interleaving of a backup with a gc / delete, once both
+have finished every version marked complete has all its blocks. -/
+def C06Statement : Prop := C06For true
 
 /-- Both actors have indeed finished (succeeded, refused or failed) at the end of every schedule:
 the "once both have finished" of the property is not a hypothesis one could fail to meet. -/
@@ -60,9 +75,10 @@ theorem both_finished (c : Config) (sched : Schedule) :
     (runProto sched c.start).b.pc.fin = true ∧ (runProto sched c.start).g.pc.fin = true :=
   runProto_finished sched _
 
-/-! ### The property is false of the code (D7) -/
+/-! ### The property was false of the code before the repair (D7) -/
 
-/-- One complete version referring to block 1; block 7 is garbage; the new source needs 7. -/
+/-- One complete version referring to block 1; block 7 is garbage; the new source needs 7
+(`recheck = false`: the backup before the repair). -/
 def witness : Config :=
   { bands := [⟨0, true, true, [1]⟩], present := [1, 7], needed := [7] }
 
@@ -72,10 +88,11 @@ list and completes version 1, which refers to 7. -/
 def witnessSched : Schedule :=
   [false] ++ List.replicate 9 true ++ List.replicate 5 false ++ [true]
 
-/-- **D7**: the full statement is refuted by a concrete archive and schedule. -/
-theorem c06_refuted : ¬ C06Statement := by
+/-- **D7**: before the repair (`recheck = false`) the full statement is refuted by a concrete
+archive and schedule. -/
+theorem c06_refuted_before_repair : ¬ C06For false := by
   intro h
-  have := h witness witnessSched (by decide) ⟨1, true, true, [7]⟩ (by decide) 7 (by decide)
+  have := h witness witnessSched rfl (by decide) ⟨1, true, true, [7]⟩ (by decide) 7 (by decide)
   revert this
   decide
 
@@ -145,6 +162,57 @@ theorem c06_partial (c : Config) (sched : Schedule) (hgood : GoodP c) (hsafe : S
   · exact (InvAll.run c sched).i5.newSafe hsafe b hb.1 hnew g hg
   · exact c06_damage_confined c sched hgood b hb hnew g hg
 
+/-- **`c06_holds`**: the property at FULL strength for the repaired backup (`recheck = true`), for
+all archives (unboundedly many bands and blocks) and all schedules (of any length): once both
+commands have finished (`both_finished`), every version marked complete — old or just written — has
+all its blocks.  (The new version by `Inv6`: gc in its sweep phase and the backup between its
+second lock check and its tail never coexist; the others by `c06_damage_confined`.) -/
+theorem c06_holds (c : Config) (sched : Schedule) (hr : c.recheck = true) (hgood : GoodP c) :
+    let s' := runProto sched c.start
+    ∀ b, complete s' b → ∀ g ∈ refs s' b, g ∈ present s' := by
+  intro s' b hb g hg
+  by_cases hnew : isNew s' b
+  · have h := InvAll.run c sched
+    exact h.i6.newSafeR (by rw [h.i1.recheck]; exact hr) b hb.1 hnew g hg
+  · exact c06_damage_confined c sched hgood b hb hnew g hg
+
+/-- **C06, full strength, proved** for the code as it is now. -/
+theorem c06_statement : C06Statement :=
+  fun c sched hr hgood => c06_holds c sched hr hgood
+
+/-- The same with `danglingBands`, the observation the harness compares. -/
+theorem c06_no_dangling (c : Config) (sched : Schedule) (hr : c.recheck = true) (hgood : GoodP c) :
+    danglingBands (runProto sched c.start) = [] := by
+  have h := c06_holds c sched hr hgood
+  simp only [danglingBands, List.map_eq_nil_iff, List.filter_eq_nil_iff]
+  intro b hb hbad
+  simp only [Bool.and_eq_true, List.any_eq_true, decide_eq_true_eq] at hbad
+  obtain ⟨hc, g, hg, hgp⟩ := hbad
+  exact hgp (h b ⟨hb, hc⟩ g hg)
+
+/-- The invariants hold at every point of every run. -/
+theorem InvAll.steps (c : Config) (sched : Schedule) : InvAll c (runSteps sched c.start) :=
+  runSteps_inv (P := InvAll c) (fun _ h => h.presB) (fun _ h => h.presG) sched _ (InvAll.start c)
+
+/-- **Mutual exclusion** (the reason `c06_holds` is true): at every point of every run of the
+repaired protocol, while gc is between a `check()` that passed and its unlock (the only phase in
+which bands and blocks are removed), the backup is not between its second lock check and its tail:
+it has not listed the blocks yet (and will refuse when it looks for the lock), or it had finished
+before gc looked at the newest band. -/
+theorem c06_exclusive (c : Config) (sched : Schedule) (hr : c.recheck = true) :
+    let s := runSteps sched c.start
+    s.g.pc = .sweep → s.b.pc ≠ .listBlocks ∧ s.b.pc ≠ .blocks ∧ s.b.pc ≠ .tail := by
+  intro s hs
+  have h := InvAll.steps c sched
+  exact h.i6.exclusive (by rw [h.i1.recheck]; exact hr) hs
+
+/-- Without the second lock check the exclusion fails: in the witness run gc is about to remove
+block 7 while the backup is about to deduplicate against it. -/
+example : (runSteps (witnessSched.take 15) witness.start).g.pc = .sweep ∧
+    (runSteps (witnessSched.take 15) witness.start).g.todoBlocks = [7] ∧
+    (runSteps (witnessSched.take 15) witness.start).b.pc = .blocks ∧
+    (runSteps (witnessSched.take 15) witness.start).b.exists_ = [1, 7] := by decide
+
 /-- (i) alone: `B.mkdir` before `G.check`. -/
 theorem c06_partial_mkdir_before_check (c : Config) (sched : Schedule) (hgood : GoodP c)
     (h : mkdirBeforeCheck (runProto sched c.start).log = true) :
@@ -210,6 +278,112 @@ theorem c06_only_unref_removed (c : Config) (sched : Schedule) :
   · exact hu
 
 /-! ### Non-vacuity -/
+
+/-- The witness archive with the repaired backup. -/
+def witnessR : Config := { witness with recheck := true }
+
+example : GoodP witnessR ∧ witnessR.recheck = true := by decide
+
+/-- Under the schedule that broke the old code the repaired backup finds the lock at its second
+check and refuses; its band 1 stays behind with a head and no tail (not complete); gc succeeds and
+removes the garbage block 7; nothing dangles. -/
+example : (runProto witnessSched witnessR.start).b.pc = .refused2 ∧
+    (runProto witnessSched witnessR.start).g.pc = .done ∧
+    danglingBands (runProto witnessSched witnessR.start) = [] ∧
+    (runProto witnessSched witnessR.start).bands = [⟨0, true, true, [1]⟩, ⟨1, true, false, []⟩] ∧
+    (runProto witnessSched witnessR.start).present = [1] ∧
+    (runProto witnessSched witnessR.start).log.reverse =
+    [.bLockCheck, .gLast, .gTailCheck, .gLockCheck, .gLockWrite, .gListKeep, .gReadRefs, .gListBlocks,
+     .gStat 7, .gCheck, .bListBasis, .bListId, .bMkdir, .bHead, .bLockCheck2, .gRmBlock 7,
+     .gUnlock] := by decide
+
+/-- The shortest violating schedule the harness had found on the old code: same outcome. -/
+example : (runProto ([false] ++ List.replicate 9 true) witnessR.start).b.pc = .refused2 ∧
+    (runProto ([false] ++ List.replicate 9 true) witnessR.start).g.pc = .done ∧
+    danglingBands (runProto ([false] ++ List.replicate 9 true) witnessR.start) = [] := by decide
+
+/-- Both commands succeed, one after the other (backup first): the new version refers to 7 and gc
+keeps 7. -/
+example : (runProto [] witnessR.start).b.pc = .done ∧ (runProto [] witnessR.start).g.pc = .done ∧
+    (runProto [] witnessR.start).g.passed = true ∧
+    (runProto [] witnessR.start).bands = [⟨0, true, true, [1]⟩, ⟨1, true, true, [7]⟩] ∧
+    (runProto [] witnessR.start).present = [1, 7] := by decide
+
+/-- Both commands succeed in a true interleaving inside the old window: the backup checks the lock,
+gc runs to its end (`check()` passes before the backup's `mkdir`, 7 is removed, the lock is
+released), the backup's second lock check finds no lock, it lists the blocks (7 is gone) and writes
+7 again. -/
+example : (runProto ([false] ++ List.replicate 11 true) witnessR.start).b.pc = .done ∧
+    (runProto ([false] ++ List.replicate 11 true) witnessR.start).g.pc = .done ∧
+    mkdirBeforeCheck (runProto ([false] ++ List.replicate 11 true) witnessR.start).log = false ∧
+    (runProto ([false] ++ List.replicate 11 true) witnessR.start).bands =
+      [⟨0, true, true, [1]⟩, ⟨1, true, true, [7]⟩] ∧
+    (runProto ([false] ++ List.replicate 11 true) witnessR.start).present = [7, 1] := by decide
+
+/-- gc refuses: it starts after the backup created its band (`DeleteWithIncompleteBackup`), or its
+`check()` sees the new band. -/
+example : (runProto (List.replicate 4 false ++ [true, true]) witnessR.start).g.pc = .refused ∧
+    (runProto (List.replicate 4 false ++ [true, true]) witnessR.start).b.pc = .done ∧
+    (runProto (List.replicate 3 false ++ List.replicate 3 true ++ [false]) witnessR.start).g.pc = .failed ∧
+    (runProto (List.replicate 3 false ++ List.replicate 3 true ++ [false]) witnessR.start).b.pc = .done := by
+  decide
+
+/-- The second lock check is what makes the difference: same archive, same schedule, `recheck`
+off / on. -/
+example : danglingBands (runProto witnessSched witness.start) = [1] ∧
+    danglingBands (runProto witnessSched witnessR.start) = [] := by decide
+
+/-! What the repair costs (no data is lost; availability only). -/
+
+/-- Both commands can refuse each other: the backup allocates its id, gc writes its lock, the backup
+creates its band and finds the lock at its second check (refuses), gc's `check()` finds the new band
+(refuses).  Nothing was removed; band 1 stays behind with a head and no tail. -/
+example : (runProto (List.replicate 3 false ++ List.replicate 4 true) witnessR.start).b.pc = .refused2 ∧
+    (runProto (List.replicate 3 false ++ List.replicate 4 true) witnessR.start).g.pc = .failed ∧
+    (runProto (List.replicate 3 false ++ List.replicate 4 true) witnessR.start).bands =
+      [⟨0, true, true, [1]⟩, ⟨1, true, false, []⟩] ∧
+    (runProto (List.replicate 3 false ++ List.replicate 4 true) witnessR.start).present = [1, 7] ∧
+    (runProto (List.replicate 3 false ++ List.replicate 4 true) witnessR.start).lock = false := by decide
+
+/-- The band a refusing backup leaves behind makes every later gc refuse
+(`DeleteWithIncompleteBackup`) until a later backup has completed a newer band … -/
+example : (runProto (List.replicate 20 true)
+      { witnessR with bands := [⟨0, true, true, [1]⟩, ⟨1, true, false, []⟩], needed := [] }.start).g.pc = .refused := by
+  decide
+
+/-- … after which gc works again and keeps what the new version refers to (the leftover band 1 is
+kept, it refers to nothing). -/
+example : (runProto [] { witnessR with bands := [⟨0, true, true, [1]⟩, ⟨1, true, false, []⟩] }.start).g.pc = .done ∧
+    (runProto [] { witnessR with bands := [⟨0, true, true, [1]⟩, ⟨1, true, false, []⟩] }.start).bands =
+      [⟨0, true, true, [1]⟩, ⟨1, true, false, []⟩, ⟨2, true, true, [7]⟩] ∧
+    (runProto [] { witnessR with bands := [⟨0, true, true, [1]⟩, ⟨1, true, false, []⟩] }.start).present = [1, 7] := by
+  decide
+
+/-- gc starting between the backup's `mkdir` and its head write (covered by `c06_holds`, every
+schedule): gc sees a newest band without a tail and refuses; had it already passed `G.tailCheck`, its
+reference scan fails on the band without a head (`Band::open`), or `check()` sees the new band. -/
+example : (runProto (List.replicate 4 false ++ List.replicate 2 true) witnessR.start).g.pc = .refused ∧
+    (runProto (List.replicate 3 false ++ List.replicate 4 true ++ [false] ++ List.replicate 2 true) witnessR.start).g.pc = .failed ∧
+    (runProto (List.replicate 3 false ++ List.replicate 4 true ++ [false] ++ List.replicate 2 true) witnessR.start).b.pc = .refused2 ∧
+    (runProto (List.replicate 3 false ++ List.replicate 4 true ++ [false] ++ List.replicate 2 true) witnessR.start).present = [1, 7] := by
+  decide
+
+
+/-- A delete of the version the backup takes as its basis, finished before the backup allocates its
+id: the backup reuses id 0 and nothing dangles; one operation earlier the lock is still there and
+the backup refuses.  (The skeleton does not model the basis: every reference of the new version
+goes through `B.block`, whatever the basis contributes.) -/
+example : (runProto ([false, false] ++ List.replicate 14 true) { witnessR with del := [0] }.start).bands =
+      [⟨0, true, true, [7]⟩] ∧
+    (runProto ([false, false] ++ List.replicate 14 true) { witnessR with del := [0] }.start).present = [7] ∧
+    (runProto ([false, false] ++ List.replicate 14 true) { witnessR with del := [0] }.start).b.pc = .done ∧
+    (runProto ([false, false] ++ List.replicate 14 true) { witnessR with del := [0] }.start).g.pc = .done ∧
+    (runProto ([false, false] ++ List.replicate 12 true) { witnessR with del := [0] }.start).bands =
+      [⟨0, true, false, []⟩] ∧
+    (runProto ([false, false] ++ List.replicate 12 true) { witnessR with del := [0] }.start).b.pc = .refused2 := by
+  decide
+
+/-! The remaining examples are about the backup before the repair (`witness`, `recheck = false`). -/
 
 /-- The witness archive is good, and its schedule has none of the safe orders. -/
 example : GoodP witness := by decide
